@@ -127,6 +127,12 @@ def check_pair_utils(case, rec):
     want_n = [sum(1 for j in range(len(seqs)) if j != i and d(seqs[i], seqs[j]) == 1) for i in range(len(seqs))]
     if [int(v) for v in nums] != want_n:
         raise Violation("calculate_neighbor_numbers", f"seqs={seqs}: {list(nums)} != {want_n}")
+    # repeated query sequences with the documented default reference (set(seqs)): every occurrence gets the same count
+    rep = list(seqs) + [seqs[0], seqs[-1]] + list(seqs[:2])
+    nums_r = call("calculate_neighbor_numbers", D.calculate_neighbor_numbers, rep, None, nb)
+    want_r = [sum(1 for r in seqs if d(q, r) == 1) for q in rep]
+    if [int(v) for v in nums_r] != want_r:
+        raise Violation("calculate_neighbor_numbers-repeats", f"seqs={rep} (default reference): {list(nums_r)} != {want_r}")
     # with an explicit reference set and queries outside it
     queries = case.get("queries", [])
     if queries:
